@@ -115,6 +115,10 @@ enum Op {
     Decisions,
     /// `force_resolve(tx, commit)`
     Force(usize, bool),
+    /// `truncate_wal()` at a checkpoint: skipped while a transaction is pending
+    Truncate,
+    /// `truncate_wal()` whatever is pending (observation stream only)
+    TruncateAnyway,
     Sleep(u64),
     /// crash, cut, restart with the given prepare timeout / max_concurrent / WAL size limit
     Crash { cut: Cut, timeout: u64, maxc: usize, cap: Option<(u64, bool)> },
@@ -672,7 +676,7 @@ fn exec(w: &mut World, op: &Op, cx: &mut Ctx) {
     }
     let before_len = w.book.file_len;
     let rot = matches!(w.cap, Some((_, true)));
-    let pre_bytes = if rot { Some(w.file()) } else { None };
+    let pre_bytes = if rot || matches!(op, Op::Truncate | Op::TruncateAnyway) { Some(w.file()) } else { None };
     w.cur = format!("{op:?}");
     let stream = format!("{}coord.op", cx.stream_prefix);
     let mut strip = false;
@@ -965,6 +969,18 @@ fn exec(w: &mut World, op: &Op, cx: &mut Ctx) {
             }
             let s = if ds.is_empty() { "-".to_string() } else { ds.iter().map(|(t, p)| format!("{t}.{p}")).collect::<Vec<_>>().join(",") };
             ("decisions".to_string(), format!("decisions:{s}"))
+        }
+        Op::Truncate | Op::TruncateAnyway => {
+            if matches!(op, Op::Truncate) && w.c().pending_count() != 0 {
+                cx.rep.hit("op.truncate.skipped_pending");
+                return;
+            }
+            cx.rep.hit("op.truncate");
+            let res = match w.c().truncate_wal() {
+                Ok(()) => "ok".to_string(),
+                Err(e) => format!("err:{e}"),
+            };
+            ("truncate".to_string(), res)
         }
         Op::Sleep(ms) => {
             std::thread::sleep(Duration::from_millis(*ms));
@@ -1411,6 +1427,7 @@ fn gen_after(r: &mut Rng, known: usize) -> Vec<Op> {
             12 => Op::Decisions,
             13 => Op::Force(t, r.chance(1, 2)),
             14 => Op::CCommit(t),
+            15 if r.chance(1, 2) => Op::Truncate,
             _ => Op::Cleanup,
         });
     }
@@ -1827,6 +1844,39 @@ fn directed_rot(cx: &mut Ctx) {
         }
         cx.rep.case(&format!("{prefix}directed.rot"), Some(&format!("rot@{cap}")));
     }
+    // truncate_wal: at a checkpoint (nothing pending) and with a prepared transaction pending
+    for anyway in [false, true] {
+        let mut w = World::new(NEVER_MS, 100, cx.m);
+        let mut script = vec![
+            Op::Begin { parts: vec![0], xflag: false }, Op::Vote { t: 0, shard: 0, v: yes.clone() }, Op::Commit(0),
+            Op::Truncate,
+            Op::Begin { parts: vec![0, 1], xflag: false }, Op::Vote { t: 1, shard: 0, v: yes.clone() }, Op::Vote { t: 1, shard: 1, v: yes.clone() },
+        ];
+        script.push(if anyway { Op::TruncateAnyway } else { Op::Truncate });
+        for op in &script {
+            exec(&mut w, op, cx);
+        }
+        let was_prepared = w.c().get(w.book.txs[1].real).map(|x| x.phase) == Some(TxPhase::Prepared);
+        exec(&mut w, &Op::Crash { cut: Cut::Full, timeout: NEVER_MS, maxc: 100, cap: None }, cx);
+        if w.clock_unsure {
+            continue;
+        }
+        let back = w.c().get(w.book.txs[1].real).is_some();
+        if anyway && was_prepared && !back {
+            cx.rep.hit("truncate.prepared_tx_dropped");
+            cx.rep.observe(json!({
+                "class": "tensor_chain.distributed_tx.truncate_wal/in_flight_transactions_dropped",
+                "what": "truncate_wal() empties the WAL whatever is pending: a transaction record_vote acknowledged as Prepared is forgotten by the next restart (outside C13's quantifier: truncate_wal is not among its operations; the theorems ask for `pending = []` at a truncation, proved otherwise by truncate_forgets_prepared_witness)",
+                "trace": w.trace}));
+        }
+        if !anyway && !back {
+            violation(cx, &w, "tensor_chain.distributed_tx.truncate_wal/skipped_truncate_lost_tx",
+                "a prepared transaction is gone although the truncation was skipped", json!({}));
+        }
+        let mut rr = Rng::new(7);
+        drain_and_verify(&mut w, cx, &mut rr);
+        cx.rep.case(&format!("{prefix}directed.rot"), Some(if anyway { "truncate-anyway" } else { "truncate-checkpoint" }));
+    }
 }
 
 /// Lock handles come from a process-wide counter that restarts with the process, while the WAL
@@ -2071,7 +2121,8 @@ fn main() {
         "op.recover_mem", "op.decisions", "op.force", "res.force.ok", "res.force.not_found", "res.force.cannot_commit",
         "res.recover_mem.timed_out_some", "res.recover_mem.commit_some", "res.wal_err", "res.commit.wal_err", "res.abort.wal_err",
         "res.vote.wal_failed", "model.need_sizes", "oracle.memory_vs_log", "scenario.capped", "wal.rotated",
-        "rot.prepared_tx_dropped", "directed.stale-handle", "direct.append.no_checksum",
+        "rot.prepared_tx_dropped", "directed.stale-handle", "direct.append.no_checksum", "op.truncate",
+        "op.truncate.skipped_pending", "truncate.prepared_tx_dropped",
     ]
     .iter()
     .map(|s| s.to_string())
